@@ -126,6 +126,8 @@ def run_history(chk, base, ops, suite='history'):
     """Runs one history on impl (mutating the module in place, restored afterwards) and on the model."""
     import minecraft as mc
     saved = list(mc.KNOWN_MINECRAFT_VERSION_RECORDS)
+    import types
+    held = types.SimpleNamespace(**{t: getattr(mc, t) for t in TABLES})       # what `from minecraft import <table>` gave another module
     try:
         mc.KNOWN_MINECRAFT_VERSION_RECORDS[:] = [mc.Version(*b) for b in base]
         mc.initglobals(use_known_records=True)
@@ -171,6 +173,29 @@ def run_history(chk, base, ops, suite='history'):
                         d = next(i for i, (x, y) in enumerate(itertools.zip_longest(g, m)) if x != y)
                         return ('after %s + initglobals(use_known_records=%s): %s differs from the projection at position %d '
                                 '(impl %r, spec %r)' % (op[0], use, name, d, g[d] if d < len(g) else None, m[d] if d < len(m) else None))
+            # updates are made by reference: a module that imported a table by name sees the update
+            via_import = observe(held)
+            if via_import != got:
+                t = next(n for n, a, b in zip(TABLES, via_import, got) if a != b)
+                return ('after %s + initglobals(use_known_records=%s): %s as imported by name before the update (from minecraft import %s) '
+                        'still has %d entries; the module attribute has %d' % (op[0], use, t, t, len(via_import[TABLES.index(t)]), len(got[TABLES.index(t)])))
+            # ... so the Connection constructor accepts exactly the supported protocols
+            from minecraft.networking.connection import Connection
+            sup, known = list(mc.SUPPORTED_PROTOCOL_VERSIONS), list(mc.KNOWN_PROTOCOL_VERSIONS)
+            probes = sup[:1] + sup[-2:] + [q for q in known if q not in sup][-2:] + [r[1] for r in (op[3] if op[0] == 'extend' else [])][:3]
+            # (a legacy edit may have put a protocol into the supported dict that the known records do not list: such a protocol has
+            #  no chronological position, and what a Connection does with it is outside this property)
+            placed = all(q in mc.PROTOCOL_VERSION_INDICES for q in sup)
+            for q in probes if placed else []:
+                try:
+                    ok = Connection('localhost', 25565, allowed_versions={q}).allowed_proto_versions == {q}
+                except ValueError:
+                    ok = False
+                if ok != (q in sup):
+                    return ('after %s + initglobals(use_known_records=%s): Connection(allowed_versions={%d}) is %s; protocol %d is %s' % (
+                        op[0], use, q, 'accepted' if ok else 'refused', q, 'supported' if q in sup else 'not supported'))
+            if sup and placed and Connection('localhost', 25565).allowed_proto_versions != set(sup):
+                return 'after %s + initglobals(use_known_records=%s): the default allowed set of a new Connection is not the supported set' % (op[0], use)
             # idempotence
             mc.initglobals(use_known_records=use)
             if observe(mc) != got:
